@@ -186,7 +186,14 @@ class ComputeTypeVisitor(Visitor.DefaultVisitor):
                 )
                 expr.SetType(expr.GetOperator().GetReturnType())
             elif isinstance(expr, ast.AffixExpression):
-                expr.SetType(expr.children[0].GetType())
+                # ++ and -- add or subtract the constant one, which is defined
+                # for a scalar only
+                operandType = expr.children[0].GetType()
+                if not (operandType.IsPrimitive() and operandType.IsScalar()):
+                    Errors.ERROR_INCOMPATIBLE_TYPES.Raise(
+                        operandType, types.Integer()
+                    )
+                expr.SetType(operandType)
             elif isinstance(expr, ast.ConstructPrimitiveExpression):
                 self.__ValidateConstructor(expr)
 
